@@ -24,3 +24,10 @@ macro_rules! i18n_path {
 pub mod __private {
     pub use crate::routing::make_i18n_segment;
 }
+
+/// Verification hooks (feature `verif_hooks`, off by default).
+#[cfg(feature = "verif_hooks")]
+#[doc(hidden)]
+pub mod verif_hooks {
+    pub use crate::routing::verif_get_locale_from_path as get_locale_from_path;
+}
